@@ -183,12 +183,20 @@ theorem parseFormattedHex4_groups (G1 G2 G3 G4 : Nat) (g1 : G1 < 65536) (g2 : G2
   have m2 : G2 / 256 % 256 = G2 / 256 := by omega
   have m3 : G3 / 256 % 256 = G3 / 256 := by omega
   have m4 : G4 / 256 % 256 = G4 / 256 := by omega
-  simp only [hex4] at q1 q2 q3 q4
+  have hv : ∀ G, ((hex4 G).all fun c => (hexDigitVal c).isSome) = true := by
+    intro G
+    simp [hex4, hexDigitVal_lower (G / 4096 % 16) (by omega), hexDigitVal_lower (G / 256 % 16) (by omega),
+      hexDigitVal_lower (G / 16 % 16) (by omega), hexDigitVal_lower (G % 16) (by omega)]
+  have v1 := hv G1
+  have v2 := hv G2
+  have v3 := hv G3
+  have v4 := hv G4
+  simp only [hex4] at q1 q2 q3 q4 v1 v2 v3 v4
   unfold parseFormattedHex4
   simp only [hex4, List.cons_append, List.nil_append, List.length_cons, List.length_nil]
   simp only [show (5 * 0 = 0) from rfl, show (5 * 1 = 5) from rfl, show (5 * 2 = 10) from rfl, show (5 * 3 = 15) from rfl,
     List.drop, List.take, List.head?]
-  simp [q1, q2, q3, q4, m1, m2, m3, m4]
+  simp [q1, q2, q3, q4, v1, v2, v3, v4, m1, m2, m3, m4]
 
 theorem field_hex16x4 (st : Style) (env : PEnv) (a b c d e f g h : Nat)
     (ha : a < 256) (hb : b < 256) (hc : c < 256) (hd : d < 256) (he : e < 256) (hf : f < 256) (hg : g < 256) (hh : h < 256) :
